@@ -1033,12 +1033,13 @@ theorem madvr_config_fields (c : Config) (src : MadvrSource) (custom : Bool) (c'
 
 /-! ## HDR10+ (`parse_hdr10plus_for_l1`) -/
 
-/-- **the outcomes of the HDR10+ step, exactly**: it never returns an error; it panics iff the summary arrays do not
-fit the frames (`HdrFits`: empty `SceneFirstFrameIndex`, an entry below the first one, a visited frame without a peak
-value for the chosen source, fewer `SceneFrameNumbers` than visited frames); otherwise it returns `hdrResult` -/
+/-- **the outcomes of the HDR10+ step, exactly** (`parse_hdr10plus_for_l1` as repaired by /repo 3502e27): it never
+panics; it returns an error iff the summary arrays do not fit the frames (`HdrFits`: empty `SceneFirstFrameIndex`, an
+entry below the first one, a visited frame without a peak value for the chosen source, fewer `SceneFrameNumbers` than
+visited frames); otherwise it returns `hdrResult` -/
 theorem hdr_config_outcome (c : Config) (src : HdrSource) :
-    hdr10plusConfig c src ≠ .error ∧
-    (hdr10plusConfig c src = .panic ↔ ¬ ∃ f0, HdrFits src f0) ∧
+    hdr10plusConfig c src ≠ .panic ∧
+    (hdr10plusConfig c src = .error ↔ ¬ ∃ f0, HdrFits src f0) ∧
     ∀ c', hdr10plusConfig c src = .ok c' → ∃ f0, HdrFits src f0 ∧ c' = hdrResult c src f0 := by
   rcases hdr10plusConfig_cases c src with ⟨h1, h2⟩ | ⟨f0, h1, h2⟩ <;> rw [h1]
   · exact ⟨fun h => (by cases h), ⟨fun _ => h2, fun _ => rfl⟩, fun c' h => (by cases h)⟩
@@ -1083,30 +1084,32 @@ theorem hdr_output (c : Config) (src : HdrSource) (po : Option Profile) (lo : Op
   obtain ⟨_, l, h1, h2⟩ := (generate_ok_iff _ po lo out).1 hg
   exact ⟨_, l, hc, h1, h2, writeAll_length l out h2⟩
 
-/-- summary arrays that do not fit the frames make the command panic (the real tool aborts: `.expect` on the empty
-array, `usize` subtraction, `.unwrap()` on a missing peak value, index out of range) -/
-theorem hdr_unfit_panics (c : Config) (src : HdrSource) (po : Option Profile) (lo : Option Bool)
-    (h : ¬ ∃ f0, HdrFits src f0) : generateHdr10plus c src po lo = .panic := by
+/-- summary arrays that do not fit the frames make the command fail with an error message (empty
+`SceneFirstFrameIndex`, an entry below the first one, a missing peak value, a missing `SceneFrameNumbers` entry) -/
+theorem hdr_unfit_errors (c : Config) (src : HdrSource) (po : Option Profile) (lo : Option Bool)
+    (h : ¬ ∃ f0, HdrFits src f0) : generateHdr10plus c src po lo = .error := by
   unfold generateHdr10plus
   rw [(hdr_config_outcome c src).2.1.2 h]; rfl
 
-/-- summary arrays that fit: the command never panics; scene lengths that do not add up to the frame count are an error -/
-theorem hdr_fit_no_panic (c : Config) (src : HdrSource) (po : Option Profile) (lo : Option Bool)
-    (f0 : Nat) (hfit : HdrFits src f0) :
+/-- **`generate --hdr10plus-json` never panics**, whatever the source and the config are; and summary arrays that fit
+but whose (first `m`) scene lengths do not add up to the frame count are an error ("Config length is not the same as
+shots total duration") -/
+theorem hdr_no_panic (c : Config) (src : HdrSource) (po : Option Profile) (lo : Option Bool) :
     generateHdr10plus c src po lo ≠ .panic ∧
-    (hdrFirstFrames src f0 ≠ [] → (src.lengths.take (hdrFirstFrames src f0).length).sum ≠ src.frames.length →
-      generateHdr10plus c src po lo = .error) := by
+    ∀ f0, HdrFits src f0 → hdrFirstFrames src f0 ≠ [] →
+      (src.lengths.take (hdrFirstFrames src f0).length).sum ≠ src.frames.length →
+      generateHdr10plus c src po lo = .error := by
   have hnp : generateHdr10plus c src po lo ≠ .panic := by
     intro hg
     unfold generateHdr10plus at hg
-    rcases hdr10plusConfig_cases c src with ⟨_, h2⟩ | ⟨g0, h1, _⟩
-    · exact h2 ⟨f0, hfit⟩
+    rcases hdr10plusConfig_cases c src with ⟨h1, _⟩ | ⟨g0, h1, _⟩
+    · rw [h1] at hg; cases hg
     · rw [h1] at hg
       simp only [Res.bind] at hg
       rw [hdr_generateFrom c src g0 po lo] at hg
       exact generate_no_panic _ po lo hg
   refine ⟨hnp, ?_⟩
-  intro hne hsum
+  intro f0 hfit hne hsum
   cases hg : generateHdr10plus c src po lo with
   | error => rfl
   | panic => exact absurd hg hnp
@@ -1277,13 +1280,16 @@ offset-1 edit on scene 0 -/
 example : viewHdr mvCfg hdrSrc 1 =
     some [(some 1, [l1v 0 3000 1500]), (some 0, [l1v 0 3000 1500]), (some 1, [l1v 0 2500 1229])] := by decide
 example : viewHdr mvCfg hdrSrc 2 = some [(some 1, [l2 2081 2]), (some 0, [l2 2081 3]), (some 1, [])] := by decide
-/-- the panics: empty first-frame list, an entry below the first, a missing scene length, a first frame without peak
-value; and the error: scene lengths not adding up -/
-example : generateHdr10plus mvCfg { hdrSrc with firsts := [] } none none = .panic := by decide
-example : generateHdr10plus mvCfg { hdrSrc with firsts := [5, 3] } none none = .panic := by decide
-example : generateHdr10plus mvCfg { hdrSrc with lengths := [2] } none none = .panic := by decide
-example : generateHdr10plus mvCfg { hdrSrc with frames := [some (3000, 1500), some (1, 1), none] } none none = .panic := by
+/-- the errors (panics before /repo 3502e27): empty first-frame list, an entry below the first, a missing scene length, a
+first frame without peak value; and scene lengths not adding up -/
+example : generateHdr10plus mvCfg { hdrSrc with firsts := [] } none none = .error := by decide
+example : generateHdr10plus mvCfg { hdrSrc with firsts := [5, 3] } none none = .error := by decide
+example : generateHdr10plus mvCfg { hdrSrc with lengths := [2] } none none = .error := by decide
+example : generateHdr10plus mvCfg { hdrSrc with frames := [some (3000, 1500), some (1, 1), none] } none none = .error := by
   decide
+/-- … and `hdr_unfit_errors`' hypothesis is satisfiable: no `f0` fits an empty first-frame list -/
+example : ¬ ∃ f0, HdrFits { hdrSrc with firsts := [] } f0 := by
+  rintro ⟨f0, h, _⟩; cases h
 example : generateHdr10plus mvCfg { hdrSrc with lengths := [2, 2] } none none = .error := by decide
 
 end Dovi.C10
